@@ -7,7 +7,9 @@ VERIF = os.path.dirname(os.path.dirname(os.path.abspath(__file__)))
 REPO = os.environ.get("VERIF_REPO", "/repo")
 CACHE = os.environ.get("VERIF_CACHE", "/var/tmp/yaclib-verif-cache")
 COQ = os.path.join(VERIF, "coq")
-NPROC = os.cpu_count() or 4
+NPROC = int(os.environ.get("VERIF_JOBS", "0")) or (os.cpu_count() or 4)
+if os.path.exists("/var/tmp/yaclib-verif-lowjobs"):
+    NPROC = 4   # set while many engineers share the machine
 
 CONFIGS = {
     # FIBER backend + coroutines + hooks; asserts of the library live (YACLIB_LOG=DEBUG)
